@@ -35,7 +35,7 @@ C19_ENTRY = {"LoadYAML": 0, "LoadMetadata": 1, "LoadWithoutEval": 2, "DAGStore.U
              # the display path through the client / API: loads without evaluation, then builds an execution graph
              # (scheduler.NewExecutionGraph -> node.init) only to validate it
              "Client.GetStatus": 2, "Client.GetAllStatus": 1, "Client.GetAllStatusPagination": 1,
-             "Client.GetStatusByRequestID": 2, "Client.GetDAGSpec": 1, "display-graph": 2,
+             "Client.GetStatusByRequestID": 2, "Client.GetRecentHistory": 2, "Client.GetDAGSpec": 1, "display-graph": 2,
              "API.GetDagDetails": 2, "API.ListDags": 1}
 NON_EXECUTING = [e for e in C19_ENTRY if e != "Load"]
 
@@ -192,7 +192,9 @@ def digest_c13(res, ep, tree, fname):
             steps += dstep(st, step_from_call(tree, i))
         head = (["O", d["name"]] + dlist(d["tags"]) + dlist(d["sched"][0]) + dlist(d["sched"][1]) + dlist(d["sched"][2])
                 + dlist(bsorted(d["env"])) + [d["logdir"], d["dparams"]] + dlist(d["params"])
-                + [str(len(d["steps"]))] + steps + hs + [str(d["nconds"]), "1" if d["json_ok"] else "0", conds])
+                + [str(len(d["steps"]))] + steps + hs
+                + ["1" if d["ptrs"][k] else "0" for k in ("smtp", "errorMail", "infoMail")]
+                + [str(d["nconds"]), "1" if d["json_ok"] else "0", conds])
     return head + ["ENV"] + denv(res.get("envset") or {})
 
 
